@@ -45,7 +45,9 @@ Definition e_c01 (o : c01_out) : val :=
              vlist (fun x => vpair (vopt e_comp (fst x)) (vlist e_comp (snd x))) (c01_std o);
              VBool (c01_has_root o); VBool (c01_is_abs o);
              VBool (c01_std_has_root o); VBool (c01_std_is_abs o);
-             vopt e_comp (c01_try_from o) ].
+             vopt e_comp (c01_try_from o);
+             vlist (fun x => vpair (VBool (fst x)) (VBool (snd x))) (c01_flags o);
+             vlist (fun x => vpair (VBool (fst x)) (VBool (snd x))) (c01_std_flags o) ].
 Definition dOptS {A} (f : val -> option A) (v : val) : option (option A) :=
   match v with
   | VN => Some None
@@ -54,13 +56,15 @@ Definition dOptS {A} (f : val -> option A) (v : val) : option (option A) :=
   end.
 Definition d_c01 (v : val) : option c01_out :=
   match v with
-  | VC t [a; b; VBool c; VBool d; VBool e; VBool f; g] =>
+  | VC t [a; b; VBool c; VBool d; VBool e; VBool f; g; fl; sfl] =>
       if tag_is t "c01" then
-        match dList (d_pair (dOptS d_comp) dB) a, dList (d_pair (dOptS d_comp) (dList d_comp)) b, dOptS d_comp g with
-        | Some a', Some b', Some g' =>
+        match dList (d_pair (dOptS d_comp) dB) a, dList (d_pair (dOptS d_comp) (dList d_comp)) b, dOptS d_comp g,
+              dList (d_pair dBool dBool) fl, dList (d_pair dBool dBool) sfl with
+        | Some a', Some b', Some g', Some fl', Some sfl' =>
             Some {| c01_impl := a'; c01_std := b'; c01_has_root := c; c01_is_abs := d;
-                    c01_std_has_root := e; c01_std_is_abs := f; c01_try_from := g' |}
-        | _, _, _ => None
+                    c01_std_has_root := e; c01_std_is_abs := f; c01_try_from := g';
+                    c01_flags := fl'; c01_std_flags := sfl' |}
+        | _, _, _, _, _ => None
         end
       else None
   | _ => None
@@ -135,7 +139,7 @@ Fixpoint run_fuel (fuel : nat) (op : string) (args : list val) : val :=
     if tag_is name "c02" then
       match sel, args with SelW, [VB p] => ob_c02 p | _, _ => VBad end
     else if tag_is name "c03" then
-      match args with [VB p; VB sched] => VC "c03" [o_sched E p (e_dirs sched); o_iter_sched E p (e_dirs sched)] | _ => VBad end
+      match args with [VB p; VB sched] => VC "c03" [o_sched E typed p (e_dirs sched); o_iter_sched E p (e_dirs sched)] | _ => VBad end
     else if tag_is name "c04" then
       match args with
       | [VB base; VB p] => VC "c04" [ob_hist E typed base [VC "pushc" [VB p]]; ob_join_checked E base p; ob_join E typed base p]
@@ -163,7 +167,7 @@ Fixpoint run_fuel (fuel : nat) (op : string) (args : list val) : val :=
       | [VB p] =>
           let n := o_normalize E p in
           VC "c11" [VB n; o_flags E p; o_flags E n; VB (o_normalize E n);
-                    o_sched E n (repeat false (S (List.length n)))]
+                    o_sched E typed n (repeat false (S (List.length n)))]
       | _ => VBad end
     else if tag_is name "c12" then
       match args with
@@ -245,7 +249,13 @@ Definition oracle_pair (which : string) (args : list val) (out : val) : N :=
         | Some [VL su; iu], Some [VL ss; is_] =>
             ob (all2 (fun a b =>
                         match vargs "st" a, vargs "st" b with
-                        | Some [ca; VB ra; _], Some [cb; VB rb; _] => val_eqb ca cb && list_eqb (ucomps ra) (ucomps rb)
+                        | Some [ca; VB ra; _; fa], Some [cb; VB rb; _; fb] =>
+                            val_eqb ca cb && list_eqb (ucomps ra) (ucomps rb) &&
+                            (* the iterator reports a root / absoluteness exactly when std's remainder does *)
+                            match vargs "t" fa, vargs "t" fb with
+                            | Some [ha; aa; _; _], Some [hb; ab; _; _] => val_eqb ha hb && val_eqb aa ab
+                            | _, _ => false
+                            end
                         | _, _ => false
                         end) su ss)
         | _, _ => fail
@@ -263,6 +273,14 @@ Fixpoint erase_variant (v : val) : val :=
   | VC t l => VC t (map erase_variant l)
   | VL l => VL (map erase_variant l)
   | _ => v
+  end.
+(* a runtime-typed answer never changes which encoding it wraps: every variant tag in it is the family's *)
+Fixpoint variants_ok (tag : string) (v : val) : bool :=
+  match v with
+  | VC t [] => if tag_is t "tu" || tag_is t "tw" then tag_is t tag else true
+  | VC t l => forallb (variants_ok tag) l
+  | VL l => forallb (variants_ok tag) l
+  | _ => true
   end.
 Definition untype (name : string) (v : val) : val :=
   let v := erase_variant v in
@@ -304,7 +322,9 @@ Definition check (op : string) (args : list val) (out : val) : N :=
     let (n2, fam) := split_dot suffix EmptyString in
     let typed := match family fam with Some (_, t) => t | None => false end in
     match vargs "t" out with
-    | Some [a; b] => ob (val_eqb (if typed then untype n2 a else a) b)
+    | Some [a; b] =>
+        let tag := match family fam with Some (SelW, _) => "tw" | _ => "tu" end in
+        ob (val_eqb (if typed then untype n2 a else a) b && (if typed then variants_ok tag a else true))
     | _ => 0
     end
   else oracle name suffix args out.
